@@ -251,10 +251,21 @@ def abort_case(case):
       s.plan = {k + off: v for k, v in plan2.items()}
       s.signals = {k + off: v for k, v in signals2.items()}
     ret, raised = None, None
+    exec_kw = {}
+    if case.get('profile'):
+      import os as _os  # pylint: disable=g-import-not-at-top
+      import tempfile as _tf  # pylint: disable=g-import-not-at-top
+      exec_kw['profile_filename'] = _os.path.join(_tf.gettempdir(), 'vf_c04_%d.prof' % _os.getpid())    # phases run under cProfile
     try:
-      ret = test.execute(test_start=ts)
+      ret = test.execute(test_start=ts, **exec_kw)
     except KeyboardInterrupt:
       raised = 'KeyboardInterrupt'
+    finally:
+      if exec_kw:
+        try:
+          _os.remove(exec_kw['profile_filename'])
+        except OSError:
+          pass
     log.append(('execute-returned', s.k))
     incomplete = []
     if cbs:
@@ -293,7 +304,7 @@ def check(case):
   s, res, exc = run_case(case)
   tag = case['template']
   n_abort_requests = len([1 for v in (case.get('plan') or {}).values() if v == 'SIGINT' or (isinstance(v, list) and v[0] == 'wake')])
-  r.classes = ['template:' + tag, 'via:' + case['via'], 'aborts:%d' % n_abort_requests] + (['cancel_timeout_s:%s' % case['cancel']] if 'cancel' in case else [])
+  r.classes = ['template:' + tag, 'via:' + case['via'], 'aborts:%d' % n_abort_requests] + (['cancel_timeout_s:%s' % case['cancel']] if 'cancel' in case else []) + (['profiled'] if case.get('profile') else [])
   if s.failure is not None:
     if s.failure[0] in ('deadlock', 'steplimit'):
       locs = [e for e in s.events if e[0] == 'sig-at']
@@ -560,6 +571,9 @@ def plan(tier, seed):
     for via in ('thread', 'signal'):
       jobs.append({'kind': 'sweep', 'name': 'sweep.%s.%s' % (t, via), 'template': t, 'via': via, 'stride': 3 if q else 1, 'offset': seed % 3 if q else 0,
                    'pairs': 40 if q else 600, 'seed': seed})
+  for t in ('group', 'plain3'):
+    jobs.append({'kind': 'sweep', 'name': 'sweep.%s.profile.thread' % t, 'template': t, 'via': 'thread', 'profile': True, 'stride': 3 if q else 1,
+                 'offset': seed % 3 if q else 0, 'pairs': 10 if q else 200, 'seed': seed})
   for t, c in CANCEL_VARIANTS:
     for via in ('thread', 'signal'):
       jobs.append({'kind': 'sweep', 'name': 'sweep.%s.cancel%s.%s' % (t, c, via), 'template': t, 'via': via, 'cancel': c, 'stride': 3 if q else 1,
@@ -602,6 +616,8 @@ def run_job(job, acct):
     base['rerun'] = True
   if 'cancel' in job:
     base['cancel'] = job['cancel']
+  if job.get('profile'):
+    base['profile'] = True
   r0, s0 = check(base)
   record(base, r0)
   n = s0.k
@@ -634,7 +650,7 @@ def run_job(job, acct):
           record(case, r)
   # whatever the abort call itself computes from the live test state (descriptions for its log lines) runs while the
   # executor moves on: one preemption between any two lines of it, at every abort position that executes such lines
-  if job['via'] == 'thread' and job['template'] in ('plain3', 'group') and not job.get('rerun') and 'cancel' not in job:
+  if job['via'] == 'thread' and job['template'] in ('plain3', 'group') and not job.get('rerun') and 'cancel' not in job and not job.get('profile'):
     for k in ks:
       s1, _, _ = run_case(dict(base, plan={str(k): inj1}), trace=True)
       inner = [kk for kk, tidx, tg in s1.tags if kk > k and tg and tg[0] == 'line' and tg[1] in ('last_run_phase_name', '__str__')]
